@@ -1,6 +1,7 @@
 package c17
 
 import (
+	"net/url"
 	"bytes"
 	"encoding/json"
 	"fmt"
@@ -68,6 +69,9 @@ func (o op) path() string {
 	if o.query != "" {
 		q = "?" + o.query
 	}
+	// IDs are opaque strings: in a path they travel percent-encoded, and the server is to see the decoded ID
+	oid, obid := o.id, o.batchID
+	o.id, o.batchID = url.PathEscape(oid), url.PathEscape(obid)
 	switch o.kind {
 	case "create", "get", "delete":
 		return "/files/" + o.id + q
@@ -299,8 +303,13 @@ func genBatchBody(r *gen.Rand, i int, batchIDs []string) ([]byte, string, error)
 	b.SetID(id)
 	b.GetHeader().ID = id
 	b.GetControl().ID = id
-	body, _ := json.Marshal(b)
 	note := "batch " + b.GetHeader().StandardEntryClassCode + " id=" + id
+	if r.Chance(1, 5) {
+		// percent signs are ordinary alphanumeric characters of a NACHA field
+		b.GetHeader().CompanyDiscretionaryData = gen.Pick(r, []string{"10%% OFF", "2% DISCOUNT", "100%", "%d %s %v", "5 % D"})
+		note += " percent-signs"
+	}
+	body, _ := json.Marshal(b)
 	if r.Chance(1, 8) {
 		body = mutateJSON(r, body)
 		note += " MUTATED"
@@ -334,10 +343,16 @@ func run(t *T) {
 		r := t.R.Fork(uint64(c))
 		x := &runner{t: t, h: newHandler(), m: newModel()}
 		x.nbase = r.Range(1, 3)
-		for i := 0; i < x.nbase; i++ {
-			x.ids = append(x.ids, fmt.Sprintf("file-%d", i+1))
-		}
+		// plain IDs, and IDs that only travel percent-encoded in a path (blank, non-ASCII, '#', '%')
+		idPool := []string{"file-1", "file-2", "file-3"}
 		batchIDs := []string{"b1", "b2", "bx"}
+		if c%4 == 3 {
+			idPool = []string{"file 1", "fïle#2", "file-3%41"}
+			batchIDs = []string{"b 1", "b2", "b%78"}
+		}
+		for i := 0; i < x.nbase; i++ {
+			x.ids = append(x.ids, idPool[i])
+		}
 		length := r.Range(1, 12)
 		var key strings.Builder
 		genErr := ""
